@@ -80,10 +80,7 @@ func UnmarshalTransfer(bytes []byte) (chain.Action, error) {
 	if bytes[0] != mconsts.TransferID {
 		return nil, fmt.Errorf("unexpected transfer typeID: %d != %d", bytes[0], mconsts.TransferID)
 	}
-	if err := codec.LinearCodec.UnmarshalFrom(
-		&wrappers.Packer{Bytes: bytes[1:]},
-		t,
-	); err != nil {
+	if err := codec.UnmarshalExact(bytes[1:], t); err != nil {
 		return nil, err
 	}
 	// Ensure that any parsed Transfer instance is valid
